@@ -21,7 +21,8 @@
  *               square_root (default solver), positive_part + negative_part = s
  *
  * Tolerances are built from u (epsilon of double), the norm of s, bounds of
- * |f|, |f'|, |f''| on the spectrum interval and the gaps, see tolerance().
+ * |f|, |f'|, |f''| on the spectrum interval and the gaps, see gapInfo() and
+ * solverTol().
  */
 #include "gens.hxx"
 #include "TFEL/Math/stensor.hxx"
@@ -38,9 +39,9 @@ namespace {
 
   constexpr R U = static_cast<R>(std::numeric_limits<double>::epsilon());
   constexpr R K_U = 1024;     // x u x (scale of the quantity), assembly of ~100 flops
-  constexpr R K_SOLVER = 16384;  // x u: backward error of the accurate eigen solvers (C03: <= 15 u) x conditioning
+  constexpr R K_SOLVER = 32768;  // x u: backward error of the accurate eigen solvers (C03: <= 15 u) x conditioning
   constexpr R K_REG = 128;     // x eps x (|f''| + |f'|/gap3): regularised branches
-  constexpr R K_AN = 128;     // x sqrt(u): default (analytical) solver, as in C03
+  constexpr R K_AN = 256;     // x sqrt(u): default (analytical) solver, as in C03
   constexpr R K_NEAR = 256;   // x u/gap: default solver, near-degenerate spectra
 
   // ------------------------------------------------------------ scalar functions
